@@ -85,6 +85,13 @@ def hostile_nodes():
         nodes.append(("untagged-list:" + t, "!%s [1]" % t))
         nodes.append(("untagged-map:" + t, "!%s {a: 1}" % t))
         nodes.append(("untagged-bare:" + t, "!%s ''" % t))
+    # unregistered application tags named like the vocabulary of YAML loaders themselves (method, node and type names)
+    for t, body in [("mapping", "{a: 1}"), ("sequence", "[1]"), ("scalar", "'x'"), ("pairs", "[{a: 1}]"), ("yaml_int", "'1'"), ("yaml_str", "'x'"),
+                    ("yaml_float", "'1.5'"), ("yaml_bool", "'true'"), ("yaml_null", "''"), ("yaml_set", "{a: }"), ("yaml_omap", "[{a: 1}]"),
+                    ("yaml_seq", "[1]"), ("yaml_map", "{a: 1}"), ("yaml_timestamp", "'2001-12-14'"), ("yaml_binary", "'aGVsbG8='"),
+                    ("object", "{a: 1}"), ("document", "[1]"), ("undefined", "''"), ("int", "'1'"), ("str", "'x'"), ("map", "{a: 1}"), ("seq", "[1]"),
+                    ("python_name", "'os.system'"), ("__class__", "''"), ("load", "'x'"), ("constructor", "{a: 1}")]:
+        nodes.append(("untagged-vocabulary:" + t, "!%s %s" % (t, body)))
     # forbidden tags on scalars whose text looks like something to expand or interpolate
     for label, text in [("dollar-untagged", "!NoSuchPlugin $HOME/pool.cfg"), ("dollar-name", "!!python/name:os.system ${X}"),
                         ("dollar-apply-scalar", "!!python/object/apply:os.system \"echo $HOME\""), ("dollar-module", "!!python/module:os $PATH"),
